@@ -7,8 +7,9 @@
    (ascii_ok of Model/Las.v); on such bytes decode/encode are the identity, str.rstrip("\0") removes trailing
    0 bytes and bytes.split(b"\0") / b"\0".join are split_nul / join_nul.
 
-   Repaired behaviour modelled (see the report): a parsed lookup name is written with the codec it was parsed
-   with, and a LasZip record keeps the description of the raw record. *)
+   Two defects found while building this model were repaired in the source (e25592e, 876e7e5) and the model
+   describes the repaired behaviour: a parsed lookup name is written with the codec it was parsed with, and a
+   LasZip record keeps the description of the raw record. *)
 From Coq Require Import String.
 From Coq Require Import ZArith List Bool.
 From LasV Require Import Lib.Base Lib.Layout Gen.GenKnown Model.Las.
